@@ -407,6 +407,14 @@ def judge(sim: C01Sim) -> None:
     if not lossy:
         byidx = {o["idx"]: o for o in live}
         first_tx: dict[int, int] = {}
+        seen_bodies: dict[tuple, int] = {}
+        for o in live:
+            hdr = rc.enc_btp(o["op"]["dport"], o["op"].get("sport", 0) if o["op"]["btp"] == "a" else o["op"].get("dpinfo", 0))
+            kb = (o["op"]["st"], o["op"]["type"], hdr + o["payload"])
+            seen_bodies[kb] = seen_bodies.get(kb, 0) + 1
+        ambiguous = {kb for kb, c in seen_bodies.items() if c > 1}
+        if ambiguous:
+            sim.probe("order-not-judged-identical-requests", len(ambiguous))
         for t in hist.tx:
             if t["injected"]:
                 continue
@@ -420,6 +428,9 @@ def judge(sim: C01Sim) -> None:
             body = p["payload"]
             for o in live:
                 hdr = rc.enc_btp(o["op"]["dport"], o["op"].get("sport", 0) if o["op"]["btp"] == "a" else o["op"].get("dpinfo", 0))
+                if (o["op"]["st"], o["op"]["type"], hdr + o["payload"]) in ambiguous:
+                    continue        # two requests of one station with identical transport type, BTP header and payload: a frame cannot
+                                    # be attributed to one of them (one of them may legitimately never be emitted, e.g. SCF without neighbour)
                 if o["op"]["st"] == t["st"] and o["idx"] not in first_tx and hdr + o["payload"] == body and o["ev"] <= t.get("ev", 1 << 60) \
                         and rc.ptype(p).lower() == o["op"]["type"]:
                     first_tx[o["idx"]] = t["i"]
